@@ -6,6 +6,7 @@ from .. import gen as G
 from ..storejudge import init_arguments
 
 ID = 'C12'
+TECHNIQUE = 'runtime monitoring: dtype render / parse events and the dtype attribute of every rewritten receiver and fresh result judged against a string model of both notations'
 TITLE = 'dtype strings <-> formats'
 RULE = ('events get_dtype(notation) (result string vs the receiver\'s format, requested notation, else the configured one), constructor / resize with '
         'dtype=<string> (resulting signed, n_word, n_frac, complex must equal an independent parse of the string, in fxp and Q/UQ/S/U spellings and any '
